@@ -8,6 +8,7 @@ import (
 	"fmt"
 	"os"
 	"path"
+	"path/filepath"
 	"sort"
 	"strings"
 
@@ -92,13 +93,8 @@ func specJSONPath(val interface{}, p string) interface{} {
 func (v *vdrRun) monitors() {
 	pk, fin := v.postKill, v.final
 	psdir := v.psdir
-	// ---- nothing outside the pipestance is touched
-	for p, c := range v.outside {
-		if b, err := os.ReadFile(p); err != nil || string(b) != c {
-			v.violate("C14", "property", "C14:outside-touched",
-				fmt.Sprintf("%s (outside the pipestance directory %s) was removed or changed", p, psdir), nil)
-		}
-	}
+	// ---- nothing outside the pipestance is touched (also checked after every step and after the final kill)
+	v.checkOutside("C14:outside-touched-by-postprocess", "by post-processing")
 	// ---- the two bookkeeping maps of the real code are consistent (the
 	// hypothesis `BK` of reclaims_all_unreferenced): a node holds an argument
 	// iff it is a post node listing it; no argument without holders
@@ -141,7 +137,9 @@ func (v *vdrRun) monitors() {
 	// ---- the named set: top-level outputs (before post-processing) and retained outputs
 	var named []string
 	topDir := v.r.Ast.Call.Id + "/fork0"
+	var namedAbs []string // every absolute path named, inside the pipestance or not
 	if b, ok := pk.Outs[topDir]; ok {
+		namedAbs = append(namedAbs, absStringsInJSON(b)...)
 		for _, p := range pathsInJSON(b, psdir) {
 			named = append(named, v.rel(p))
 		}
@@ -157,6 +155,7 @@ func (v *vdrRun) monitors() {
 				continue
 			}
 			sub, _ := json.Marshal(specJSONPath(val, rt.out))
+			namedAbs = append(namedAbs, absStringsInJSON(sub)...)
 			for _, p := range pathsInJSON(sub, psdir) {
 				named = append(named, v.rel(p))
 			}
@@ -170,9 +169,22 @@ func (v *vdrRun) monitors() {
 				t = path.Join(psdir, path.Dir(named[i]), t)
 			}
 			t = path.Clean(t)
+			namedAbs = append(namedAbs, t)
 			if strings.HasPrefix(t, psdir+"/") && len(named) < 10000 {
 				named = append(named, v.rel(t))
 				v.hist("named-through-symlink")
+			}
+		}
+	}
+	// … and a path named through a link names the resolved location
+	for _, n := range append([]string(nil), namedAbs...) {
+		if r, err := filepath.EvalSymlinks(n); err == nil && r != n {
+			namedAbs = append(namedAbs, r)
+			if vdrAliasFrom != "" && strings.HasPrefix(r, vdrAliasFrom+"/") {
+				r = vdrAliasTo + r[len(vdrAliasFrom):]
+			}
+			if strings.HasPrefix(r, psdir+"/") && len(named) < 10000 {
+				named = append(named, v.rel(r))
 			}
 		}
 	}
@@ -186,6 +198,17 @@ func (v *vdrRun) monitors() {
 		for _, n := range named {
 			if vdrOverlap(w, n) {
 				return true
+			}
+		}
+		// a symbolic link is also kept when what it points to is named
+		if e, ok := pk.Tree[w]; ok && e.Kind == "l" {
+			for _, alt := range e.Alts {
+				for _, n := range namedAbs {
+					if vdrOverlap(path.Clean(alt), path.Clean(n)) {
+						v.hist("link-kept-because-target-is-named")
+						return true
+					}
+				}
 			}
 		}
 		return false
@@ -365,19 +388,14 @@ func (v *vdrRun) monitors() {
 			removed = append(removed, e)
 		}
 		if reset {
-			v.hist("report-not-judged-fork-was-reset")
-			continue
+			// what a restart removed (reset of unfinished or failed jobs) is not VDR's and is left out
+			v.hist("report-judged-fork-was-reset")
 		}
 		v.hist("report-judged")
 		if n > 0 {
 			v.hist("report-judged-nonempty")
 		}
-		if rep.Count == n && rep.Size != size && rep.Size == sizeWalked {
-			// the only difference: a symbolic link directly below files/ or tmp/ is
-			// accounted with the size of its target (util.Walk follows its root)
-			v.violate("C14", "property", "C14:report-size-counts-link-target",
-				fmt.Sprintf("kill report %s says size=%d for %d removed entries of %d bytes: a removed symbolic link is accounted with the size of the file it points to", rel, rep.Size, n, size), nil)
-		} else if rep.Count != n || rep.Size != size {
+		if rep.Count != n || rep.Size != size {
 			sort.Strings(removed)
 			v.violate("C14", "property", "C14:report-totals",
 				fmt.Sprintf("kill report %s says count=%d size=%d but %d entries with %d bytes were actually removed below the fork's files/ and tmp/ directories",
